@@ -364,17 +364,26 @@ func C06(c *core.Ctx) {
 	// event loop RX arm + delete
 	checkTimeoutArm(c, "R4", a, "RxTransaction", a.rxTrans)
 	delOK := false
+	var delAt ssa.Instruction
 	core.Instrs(a.rxTimeout, func(in ssa.Instruction) {
 		if dc, ok := in.(*ssa.Call); ok {
 			if bi, ok := dc.Call.Value.(*ssa.Builtin); ok && bi.Name() == "delete" {
 				rx := core.Recv(a.rxTimeout)
 				if core.IsPath(dc.Call.Args[0], rx, "server", "rxTrans") && core.IsPath(dc.Call.Args[1], rx, "id") {
 					delOK = true
+					delAt = dc
 				}
 			}
 		}
 	})
 	c.Check("R4", "entry-released", a.rxTimeout.Pos(), delOK, "RxTransaction.handleTimeout deletes its own entry from the receive table")
+	if delAt != nil {
+		all, where := dominatesReturns(delAt)
+		if all {
+			where = delAt.Pos()
+		}
+		c.Check("R4", "entry-released-always", where, all, "every path of RxTransaction.handleTimeout deletes the entry: retention is bounded by one timer period, whatever the state of the transaction")
+	}
 	checkTableDeleters(c, "R4", a.rxTrans, map[*ssa.Function]bool{a.rxTimeout: true}, "only RxTransaction.handleTimeout (retention expiry) removes entries of the receive table")
 }
 
@@ -576,6 +585,27 @@ func C09(c *core.Ctx) {
 		}
 	}
 	c.Floor("R1", nNew, 1, "NewTxTransaction call sites")
+	// a number that was handed out is consumed on every path, also when the first transmission fails:
+	// the transaction stays outstanding (registered, timer armed) and the next request must not reuse it
+	for _, ci := range core.Calls(a.sendReqTo, newTxObj) {
+		if _, f, isLoad := core.LoadedField(core.CallArgs(ci)[2]); !isLoad || f != a.txSeq {
+			continue
+		}
+		sts := storesToField(a.sendReqTo, a.txSeq)
+		r := returnAvoiding(ci.(ssa.Instruction).Block(), func(b *ssa.BasicBlock) bool {
+			for _, st := range sts {
+				if blockHas(b, st) {
+					return true
+				}
+			}
+			return false
+		})
+		pos := ci.Pos()
+		if r != nil {
+			pos = r.Pos()
+		}
+		c.Check("R1", "counter-consumed", pos, r == nil, "every path from handing the counter value to a new transmit transaction to a return of sendReqTo advances the counter")
+	}
 	// the transaction uses that seq for the key and for the message
 	seqF := p.Field(pkgPfcp, "TxTransaction", "seq")
 	for _, st := range storesToField(a.newTx, seqF) {
